@@ -37,6 +37,8 @@ SPEC = {
                   "proposals_returned": 200, "proposals_returned:standard_transfer": 20, "proposals_returned:transfer": 40,
                   "proposals_returned:send_max": 40, "proposals_returned:shielding": 20,
                   "proposals_returned_with_lock_request": 60, "multi_step_proposals": 5,
+                  "constructor_guard_chain_double_spend_probes": 150, "constructor_guard_proto_double_spend_probes": 150,
+                  "constructor_guard_step_double_spend_probes": 5, "constructor_guard_forward_reference_probes": 5,
                   "inputs_checked": 1500, "inputs_checked_transparent": 80, "witness_verifications": 800,
                   "step_balances_checked": 200, "request_above_upper_bound_refused": 20,
                   "proposals_with_ineligible_present:spent_pending": 30, "proposals_with_ineligible_present:locked_foreign": 100,
@@ -51,6 +53,8 @@ SPEC = {
                      "proposals_returned": 4000, "proposals_returned:standard_transfer": 400, "proposals_returned:transfer": 800,
                      "proposals_returned:send_max": 800, "proposals_returned:shielding": 400,
                      "proposals_returned_with_lock_request": 1200, "multi_step_proposals": 100,
+                     "constructor_guard_chain_double_spend_probes": 3000, "constructor_guard_proto_double_spend_probes": 3000,
+                     "constructor_guard_step_double_spend_probes": 100, "constructor_guard_forward_reference_probes": 100,
                      "inputs_checked": 30000, "inputs_checked_transparent": 1500, "witness_verifications": 15000,
                      "step_balances_checked": 4000, "request_above_upper_bound_refused": 400,
                      "proposals_with_ineligible_present:spent_pending": 600, "proposals_with_ineligible_present:locked_foreign": 2000,
